@@ -155,6 +155,7 @@ func c19State(name string) *enga.World {
 		for _, b := range []enga.ABlock{
 			{Events: []enga.Event{{Kind: "tx:hashes", N: 2}, {Kind: "req:withdraw", N: 3}, {Kind: "req:withdraw", N: 1, Var: "bad-address"}, {Kind: "req:addvoter"}, {Kind: "req:claim", N: 2}}},
 			{Events: []enga.Event{{Kind: "tx:deposits", N: 2}, {Kind: "tx:process", N: 2}, {Kind: "req:cancel"}, {Kind: "req:claim", N: 2}, {Kind: "req:withdraw", N: 1, Var: "bad-address"}}},
+			{Events: []enga.Event{{Kind: "tx:hashes", N: 1}}}, // the processing batch's transaction is now provable: finalisation messages are well-formed
 		} {
 			if rr := w.Run(b); rr.Err != nil {
 				panic(rr.Err)
